@@ -22,7 +22,13 @@ type verifRecorder struct {
 	flushes     int
 	onFlush     func()
 	onWrite     func()
+	// failFrom > 0: the failFrom-th Write and every later one fail (the peer is gone); failShort: the first
+	// failing Write still takes one byte
+	failFrom  int
+	failShort bool
 }
+
+var errVerifBrokenPipe = errors.New("write: broken pipe")
 
 func newVerifRecorder() *verifRecorder { return &verifRecorder{header: http.Header{}} }
 
@@ -40,8 +46,14 @@ func (r *verifRecorder) Write(p []byte) (int, error) {
 	if r.onWrite != nil {
 		r.onWrite()
 	}
-	r.body = append(r.body, p...)
 	r.writes++
+	if r.failFrom > 0 && r.writes >= r.failFrom {
+		if r.failShort && r.writes == r.failFrom && len(p) > 1 {
+			return 1, errVerifBrokenPipe // the byte taken is not recorded
+		}
+		return 0, errVerifBrokenPipe
+	}
+	r.body = append(r.body, p...)
 	return len(p), nil
 }
 func (r *verifRecorder) Flush() {
